@@ -75,25 +75,29 @@ Node(rule, arg, prems, th, aid) == [rule |-> rule, arg |-> arg, prems |-> prems,
 Root == Len(nodes)
 Init == host \in HostIds /\ nodes = <<>> /\ phase = "build" /\ sub = TRUE /\ lines = <<>> /\ whole = <<>>
 Building == phase = "build" /\ Len(nodes) < MaxNodes
+\* a node that no later node cites must still be cited: only the latest node and one more per future node can be, so a DAG with
+\* more loose nodes than nodes still to come can never become a proof term that uses every node (sound pruning of the search)
+Loose(N) == { n \in 1..(Len(N) - 1) : \A m \in (n + 1)..Len(N) : n \notin XSetOf(N[m].prems) }
+Viable(N) == Cardinality(Loose(N)) <= MaxNodes - Len(N)
 AddLeaf == /\ Building
-           /\ \E x \in Leaves : nodes' = Append(nodes, Node(x.rule, x.arg, <<>>, x.th, <<>>))
+           /\ \E x \in Leaves : nodes' = Append(nodes, Node(x.rule, x.arg, <<>>, x.th, <<>>)) /\ Viable(nodes')
            /\ UNCHANGED <<host, phase, sub, lines, whole>>
 AddAtom == /\ Building
-           /\ \E a \in HostAtoms(host) : nodes' = Append(nodes, Node("atom", AN, <<>>, a.th, a.id))
+           /\ \E a \in HostAtoms(host) : nodes' = Append(nodes, Node("atom", AN, <<>>, a.th, a.id)) /\ Viable(nodes')
            /\ UNCHANGED <<host, phase, sub, lines, whole>>
 AddUnary == /\ Building /\ nodes # <<>>
             /\ \E x \in UnaryInst :
                  LET th == ApplyRule(x.rule, x.arg, <<nodes[Root].th>>) IN
                  /\ Keep(th)
                  /\ (x.rule = "substitution" => sP \in UNION { SVarsOf(y) : y \in nodes[Root].th.h \cup {nodes[Root].th.c} })
-                 /\ nodes' = Append(nodes, Node(x.rule, x.arg, <<Root>>, th, <<>>))
+                 /\ nodes' = Append(nodes, Node(x.rule, x.arg, <<Root>>, th, <<>>)) /\ Viable(nodes')
             /\ UNCHANGED <<host, phase, sub, lines, whole>>
 AddBinary == /\ Building /\ nodes # <<>>
              /\ \E r \in BinaryRules : \E p \in 1..Root : \E first \in BOOLEAN :
                   LET prems == IF first THEN <<Root, p>> ELSE <<p, Root>>
                       th == ApplyRule(r, AN, <<nodes[prems[1]].th, nodes[prems[2]].th>>) IN
                   /\ Keep(th)
-                  /\ nodes' = Append(nodes, Node(r, AN, prems, th, <<>>))
+                  /\ nodes' = Append(nodes, Node(r, AN, prems, th, <<>>)) /\ Viable(nodes')
              /\ UNCHANGED <<host, phase, sub, lines, whole>>
 \* the proof term is exported when every node built is part of it
 Export(s) == /\ phase = "build" /\ nodes # <<>> /\ nodes[Root].rule # "atom"
